@@ -254,7 +254,9 @@ func (n *Nodes) checkNodeAvailability(ctx context.Context) {
 		}
 		requestData := make(map[string]interface{})
 		requestData["identifier"] = ownIdentifier
+		n.lock.RLock()
 		requestData["peers"] = strings.Join(n.nodeBackends[node.id], ";")
+		n.lock.RUnlock()
 		log.Tracef("pinging node %s...", node)
 		waitGroup.Add(1)
 		go func(waitGroup *sync.WaitGroup, node *NodeAddress) {
@@ -356,7 +358,9 @@ func (n *Nodes) redistribute(ctx context.Context) {
 		id := allNodes[idx].id
 		nodeBackends[id] = list
 	}
+	n.lock.Lock()
 	n.nodeBackends = nodeBackends
+	n.lock.Unlock()
 	ourBackends := assignedBackends[ownIndex]
 
 	n.updateBackends(ctx, ourBackends)
@@ -453,6 +457,19 @@ func (n *Nodes) getOnlineNodes() (ownIndex int, nodeOnline []bool, numberAllNode
 	}
 
 	return
+}
+
+// NodeBackends returns a copy of the list of backends every node is responsible for.
+// The pings of all partner nodes update the list concurrently.
+func (n *Nodes) NodeBackends() map[string][]string {
+	n.lock.RLock()
+	defer n.lock.RUnlock()
+	nodeBackends := make(map[string][]string, len(n.nodeBackends))
+	for id, list := range n.nodeBackends {
+		nodeBackends[id] = list
+	}
+
+	return nodeBackends
 }
 
 // IsOurBackend checks if backend is managed by this node.
@@ -568,7 +585,9 @@ func (n *Nodes) sendPing(ctx context.Context, node *NodeAddress, initializing bo
 			node.id = responseIdentifier
 		} else if node.id != responseIdentifier {
 			log.Infof("partner node %s restarted", node)
+			n.lock.Lock()
 			delete(n.nodeBackends, node.id)
+			n.lock.Unlock()
 			node.id = responseIdentifier
 			forceRedistribute = true
 		}
@@ -586,7 +605,9 @@ func (n *Nodes) sendPing(ctx context.Context, node *NodeAddress, initializing bo
 		if versionMismatch {
 			log.Debugf("version mismatch with node %s, deactivating", node)
 			forceRedistribute = true
+			n.lock.Lock()
 			delete(n.nodeBackends, node.id)
+			n.lock.Unlock()
 		}
 
 		// Check whose response it is
@@ -610,7 +631,9 @@ func (n *Nodes) sendPing(ctx context.Context, node *NodeAddress, initializing bo
 				for _, id := range peers {
 					nodeList = append(nodeList, interface2stringNoDedup(id))
 				}
+				n.lock.Lock()
 				n.nodeBackends[node.id] = nodeList
+				n.lock.Unlock()
 			}
 		}
 	})
